@@ -29,6 +29,13 @@ def jobs(tier):
             j.canary = False
             j.imported = True
             J.append(j)
+        elif j.name.startswith("param_hash.grow"):
+            # "parameters created earlier in the same vnacal_t change nothing": a handle >= 8 (the table has grown)
+            # still resolves to the ONE node created for it - an unknown is not silently split in two
+            j.name = "unrelated_parameters." + j.name
+            j.canary = False
+            j.imported = True
+            J.append(j)
     import C03
     for j in C03.jobs("quick"):
         if j.name in ("add_scenario.19", "add_scenario.20", "add_scenario.21"):   # double reflect on any port pair is accepted like the mapped matrix
